@@ -162,6 +162,38 @@ def run_driver(lines, name, timeout=3600):
     return ans
 
 
+
+class Guarded:
+    """proxy for a library module under test: a call that raises on an argument list containing NumPy scalars / 0-d arrays is
+    recorded as a concrete failing input (those are in-domain spellings of a number and never raise on the unchanged tree) and
+    then retried with plain Python numbers, so that the rest of the check still runs and can find what else is wrong"""
+    def __init__(self, mod, chk):
+        self._mod, self._chk = mod, chk
+
+    def __getattr__(self, name):
+        f = getattr(self._mod, name)
+        if not callable(f) or isinstance(f, type):
+            return f
+        chk = self._chk
+
+        def g(*a, **k):
+            try:
+                return f(*a, **k)
+            except Exception as ex:
+                import numpy
+                plain = [x.item() if (isinstance(x, numpy.generic) or (isinstance(x, numpy.ndarray) and x.ndim == 0)) else x for x in a]
+                if all(p is q for p, q in zip(plain, a)):
+                    raise
+                if not getattr(chk, "_guard_seen", set()) & {(name, type(ex).__name__)}:
+                    chk.__dict__.setdefault("_guard_seen", set()).add((name, type(ex).__name__))
+                    chk.fail("exception:%s:%s:numpy-scalar-argument" % (name, type(ex).__name__),
+                             "%s raises %s: %s when a parameter is a NumPy scalar / 0-d array (%s) — with Python numbers of the same "
+                             "value it is then retried" % (name, type(ex).__name__, str(ex)[:160],
+                                                          ", ".join(type(x).__name__ for x in a if not isinstance(x, numpy.ndarray) or x.ndim == 0)),
+                             {"function": name, "scalars": [repr(x) for x in a if not isinstance(x, numpy.ndarray) or x.ndim == 0]})
+                return f(*plain, **k)
+        return g
+
 # --------------------------------------------------------------------------- known findings
 def load_known_findings(prop):
     path = os.path.join(VERIF, "known_findings.json")
